@@ -1143,6 +1143,8 @@ Definition is_placeholder (m : cmember) : bool := opt_str_eqb (member_name m) (K
 
 Definition module_child (m : cmember) : bool :=
   match m with CMFunc _ | CMClass _ | CMDeco _ => true | _ => false end.
+(* of an enum only the assignments (its instances) are visited *)
+Definition enum_child (m : cmember) : bool := match m with CMAssign _ _ => true | _ => false end.
 Definition class_child (m : cmember) : bool :=
   match m with CMAssign _ _ | CMFunc _ | CMClass _ | CMDeco _ | CMOver _ _ _ _ => true | _ => false end.
 
@@ -1182,7 +1184,7 @@ Section Walk.
       do e2 <- (fix go (cur : vstate * W) (ms : list cmember) : res (vstate * W) :=
                   match ms with
                   | [] => Ok cur
-                  | x :: r => if class_child x && negb (is_placeholder x)
+                  | x :: r => if (if enum then enum_child x else class_child x) && negb (is_placeholder x)
                               then do s' <- walk_member (fst cur) x; go (fst s', wapp (snd cur) (snd s')) r else go cur r
                   end) e1 (cd_defs c);
       do s3 <- (if enum then leave_enum (fst e2) else leave_class (fst e2));
